@@ -123,6 +123,25 @@ fn call_site() -> Vec<String> {
     out
 }
 
+/// Functions known to turn an error of the calls beneath them into "absent" (probing code); the innermost SDK function otherwise.
+const CATCHERS: [&str; 7] = ["XmpInfo::from_source", "jumbf_io::format_from_stream", "Store::get_store_validation_info", "Claim::verify_hash_binding",
+    "riff_io::get_manifest_pos", "Store::load_jumbf_from_stream", "Ingredient::add_stream_internal"];
+fn short_fn(f: &str) -> String {
+    let f = f.replace("c2pa::", "").replace("asset_handlers::", "").replace("::{{closure}}", "");
+    let f = f.trim_start_matches('<').to_string();
+    // "<X as Trait>::m" -> "X::m"
+    match f.split_once(" as ") { Some((ty, rest)) => format!("{}::{}", ty, rest.rsplit("::").next().unwrap_or("")), None => f }
+}
+fn catcher(site: &[String]) -> String {
+    for f in site {
+        if let Some(c) = CATCHERS.iter().find(|c| f.contains(*c)) {
+            if *c == "Ingredient::add_stream_internal" { continue; }
+            return c.to_string();
+        }
+    }
+    site.first().map(|f| short_fn(f)).unwrap_or_else(|| "?".into())
+}
+
 /// Manifest labels are fresh UUIDs per signing: rename each to a token derived from the manifest's title and role.
 fn rename_manifests(v: &mut Value) {
     let mut map: Vec<(String, String)> = vec![];
@@ -360,7 +379,7 @@ pub fn run(args: &[String]) {
                             let c = ctls[si].lock().unwrap();
                             let same = rk == "ok" && d == bs;
                             out.emit(&json!({"e": "run", "mode": if sticky { "sticky" } else { "fault" }, "format": name, "op": op, "stream": si, "kind": kind, "k": k, "of": n, "reached": c.fired,
-                                "after": c.after_fault_calls, "site": c.site, "result": rk, "same": same, "stable": stable, "detail": if rk == "ok" { Value::Null } else { json!(d) },
+                                "after": c.after_fault_calls, "site": c.site, "catcher": catcher(&c.site), "result": rk, "same": same, "stable": stable, "detail": if rk == "ok" { Value::Null } else { json!(d) },
                                 "state": if rk == "ok" { state_of(&d) } else { Value::Null }}));
                         }
                     }
